@@ -105,7 +105,7 @@ def run_case(case, ch, workdir):
         if rstat != "ok":
             res["digest"] = "rejected"
             return res
-        ref_dirs = sorted(d for d in os.listdir(os.path.join(workdir, "refcache")) if d.startswith("python-") and os.path.isdir(os.path.join(workdir, "refcache", d)))
+        ref_dirs = sorted(d for d in os.listdir(os.path.join(workdir, "refcache")) if d.startswith(("python-", "workflow-")) and os.path.isdir(os.path.join(workdir, "refcache", d)))
         if not ref_dirs:
             res["digest"] = "rejected"
             return res
